@@ -61,6 +61,7 @@ type Stub struct {
 	mu      sync.Mutex
 	seen    []Seen
 	probes  []int64
+	pauth   []string // Authorization header of each probe (attributes a probe to the gateway cluster that sent it)
 	byID    map[string]int
 	health  int32
 	handler atomic.Value // func(w http.ResponseWriter, r *http.Request, s *Seen)
@@ -119,6 +120,7 @@ func (s *Stub) serve(w http.ResponseWriter, r *http.Request) {
 	if r.URL.Path == "/healthz" && r.Header.Get(IDHeader) == "" {
 		s.mu.Lock()
 		s.probes = append(s.probes, Now())
+		s.pauth = append(s.pauth, r.Header.Get("Authorization"))
 		s.mu.Unlock()
 		switch HealthMode(atomic.LoadInt32(&s.health)) {
 		case HealthOK:
@@ -229,6 +231,37 @@ func (s *Stub) Probes() []int64 {
 	out := make([]int64, len(s.probes))
 	copy(out, s.probes)
 	return out
+}
+
+// ProbesFrom returns the timestamps of the /healthz probes that carried the given gateway credential
+// ("Bearer <token of the cluster object>"). Stub listeners use ephemeral ports, and a port released by a closed stub of one
+// history can be handed to a new stub of another history while a health checker of the first history is still probing the
+// old address; attributing probes by the per-cluster credential keeps such stray probes out of a history's verdicts.
+func (s *Stub) ProbesFrom(token string) []int64 {
+	s.mu.Lock()
+	defer s.mu.Unlock()
+	want := "Bearer " + token
+	var out []int64
+	for i, a := range s.pauth {
+		if a == want {
+			out = append(out, s.probes[i])
+		}
+	}
+	return out
+}
+
+// StrayProbeCount returns the number of probes that did NOT carry the given credential.
+func (s *Stub) StrayProbeCount(token string) int {
+	s.mu.Lock()
+	defer s.mu.Unlock()
+	want := "Bearer " + token
+	n := 0
+	for _, a := range s.pauth {
+		if a != want {
+			n++
+		}
+	}
+	return n
 }
 
 func (s *Stub) ProbeCount() int {
